@@ -265,7 +265,14 @@ func runGoScenario(m map[string]string) string {
 			time.Sleep(5 * time.Millisecond)
 		}
 	}
-	return fmt.Sprintf("caller=%s lost=%s prompt=%s leak=%s", caller, lostStr, b01(prompt), leak)
+	// the wrapped function is always started, however early Go itself returns (a cancelled context included)
+	startedFlag := "0"
+	select {
+	case <-started:
+		startedFlag = "1"
+	case <-time.After(300 * time.Millisecond):
+	}
+	return fmt.Sprintf("caller=%s lost=%s prompt=%s leak=%s started=%s", caller, lostStr, b01(prompt), leak, startedFlag)
 }
 
 func callerIsFn(err error, isPanic bool, fs funcSpec) bool {
